@@ -156,6 +156,9 @@ def scenarios(prop, quick, seed):
         return scenarios_c11(quick, seed)
     if prop == "C10":
         return scenarios_c10(quick, seed)
+    if prop == "C20":
+        # concurrent tallies of the load statistics: shared flights (BulkGet / Get joiners), refreshes, all loader outcomes
+        return scenarios_c10(quick, seed) + scenarios_c11(quick, seed)[: (40 if quick else 1000)]
     n = 320 if quick else 20000
     kinds = [["set"], ["invalidate"], ["compute"], ["evict"], ["set", "invalidate"], ["setifabsent"], ["invalidateAll"], [],
              ["compute", "set"], ["invalidate", "invalidate"], ["setifabsent", "setifabsent"], ["computeinv"], ["computeinv", "computeinv"]]
@@ -263,7 +266,7 @@ def run(prop, tier, replay=None, collect_only=False):
             if prop == "C11":
                 inst = [("g1r2w1", lr_cfg([1], [3, 4], [11], "WK_set", True, preload=True))]
                 neg = []
-            elif prop == "C10":
+            elif prop in ("C10", "C20"):
                 inst, neg = [], []
             elif not quick:
                 inst += [("g1r2w2p", lr_cfg([1], [3, 4], [11, 12], "WK_two", False, preload=True)), ("g2r1w1", lr_cfg([1, 2], [3], [11], "WK_set", False)),
